@@ -48,7 +48,7 @@ pub fn run<W: WorldDriver>(a: usize, start_cap: usize) -> Result<BoundaryStats, 
         len += 1;
         st.creates += 1;
         let slot = raw_slot(raw) as usize;
-        if raw_arch_id(raw) != infos[a].id || slot >= LIMIT || raw.1 != 1 {
+        if raw_arch_id(raw) != infos[a].id || slot >= LIMIT {
             return Err(format!("create #{} on {} returned unexpected handle {:?}", len, name, raw));
         }
         if seen[slot / 64] & (1 << (slot % 64)) != 0 {
@@ -110,7 +110,8 @@ pub fn run<W: WorldDriver>(a: usize, start_cap: usize) -> Result<BoundaryStats, 
             }
             match catch(|| W::create(&mut w, a, CreatePath::WCreateWithin, &vals)) {
                 Ok(CreateOut::Created { raw, .. }) => {
-                    if raw_slot(raw) != raw_slot(victim) || raw.1 != 2 {
+                    // the only free position must be reused, under a handle different from the old one
+                    if raw_slot(raw) != raw_slot(victim) || raw == victim {
                         return Err(format!("the position freed at the limit was not reused: destroyed {:?}, created {:?}", victim, raw));
                     }
                     if W::lookup(&mut w, a, LookupPath::AContains, Key::Any(victim)).is_some() {
